@@ -81,14 +81,22 @@ type tracer struct {
 	sc    int
 	start time.Time
 	n     atomic.Int64 // progress counter for the watchdog
+	slim  bool         // long histories: registry and census lines only
 	buf   []byte
 }
+
+var slimKeep = map[string]bool{"Begin": true, "Base": true, "Hk": true, "Quiesce": true, "CReg": true, "End": true,
+	"Unwind": true, "Leak": true, "Wedged": true, "Crash": true, "Fault": true, "Unfault": true, "Note": true, "Stuck": true}
 
 var tr = &tracer{}
 
 func (t *tracer) emit(e Ev) {
 	t.mu.Lock()
 	defer t.mu.Unlock()
+	if t.slim && !slimKeep[e.Ev] {
+		t.n.Add(1)
+		return
+	}
 	t.seq++
 	e.Seq = t.seq
 	e.Sc = t.sc
